@@ -282,12 +282,13 @@ def run_case(ctx, name, params):
                         import time as _t
                         from .. import sqlproxy
                         held = threading.Event()
+                        hold_s = r.choice([0.08, 0.13, 0.35, 0.7])      # 1 .. ~10 busy time-outs: the write has to be retried again and again
 
                         def hold():
                             cn = sqlproxy.REAL_CONNECT(path, isolation_level=None, timeout=1.0)
                             cn.execute("BEGIN EXCLUSIVE")
                             held.set()
-                            _t.sleep(0.13)
+                            _t.sleep(hold_s)
                             cn.execute("COMMIT")
                             cn.close()
                         holder = threading.Thread(target=hold)
